@@ -87,6 +87,15 @@ def check(ctx):
         ctx.verus_unit(valueparse.make_unit(ctx.scratch.dir), finder=None)
     except Lost as e:
         ctx.undecided.append('valueparse reason=lost anchor: %s' % e)
+    # the element-structure checks of parse_element: unknown / version-foreign element, choice conflict, repeated single-occurrence element
+    from contracts import elemcheck
+    try:
+        ctx.verus_unit(elemcheck.make_unit(ctx.scratch.dir), finder=None)
+        ctx.native_ground('lib', 'tables_modes', 'complete',
+                          'wf_modes() of the Verus unit `elemcheck` evaluated on the real statics: a character-only type lists no sub-elements and no group has content mode Characters (makes the panic! in check_element_conflict unreachable)')
+        ctx.native_ground('lib', 'tables_wf', 'complete', 'wf_tables() assumed by the lookup contracts that unit `elemcheck` calls, evaluated on the real statics')
+    except Lost as e:
+        ctx.undecided.append('elemcheck reason=lost anchor: %s' % e)
     # value checks run on the *trimmed* text: the trim contract (only ASCII whitespace is removed, and all of it at both ends)
     # is what keeps a defective value from slipping through; same unit as in C02
     from contracts import trim
@@ -151,6 +160,7 @@ def check(ctx):
     else:
         ctx.undecided.append('%s: no result (rc=%s) %s' % (name, rc, (out + err)[-300:]))
     return ctx.finish(
-        explanation='The statement is a 2-safety property of the whole parser. Its mechanism is a single funnel: every recoverable finding goes through optional_error (directly or via check_version), the only reader of `strict`. Complete Kani harnesses discharge the contracts of optional_error, error and check_version (both modes, all masks, all versions). Frame conditions that need no solver are checked on the code text: `strict` is read only in optional_error, every funnel call propagates its Result with `?`, `warnings` is mutated only in optional_error. From these, "strict fails with the first lenient warning and both agree when there is none" follows by a non-interference argument that is NOT machine-checked. As a bounded stand-in for it, the public API is run strict and lenient on a corpus of defect documents and their single-byte mutations. Not covered: that each constraint class is enforced in every element context and version (parse_element call sites, element graph).',
+        explanation='The statement is a 2-safety property of the whole parser. Its mechanism is a single funnel: every recoverable finding goes through optional_error (directly or via check_version), the only reader of `strict`. Complete Kani harnesses discharge the contracts of optional_error, error and check_version (both modes, all masks, all versions). Frame conditions that need no solver are checked on the code text: `strict` is read only in optional_error, every funnel call propagates its Result with `?`, `warnings` is mutated only in optional_error. From these, "strict fails with the first lenient warning and both agree when there is none" follows by a non-interference argument that is NOT machine-checked. As a bounded stand-in for it, the public API is run strict and lenient on a corpus of defect documents and their single-byte mutations. Verus proves on the real text of find_element_in_spec_checked / check_element_conflict / check_multiplicity (unit elemcheck), against the lookup contracts that unit lookups proves, that strict mode never returns Ok for an element that is unknown or not available in the file version, for a second alternative of a choice group, or for a repeated single-occurrence element, and that the panic! in check_element_conflict is unreachable; unit valueparse does the same for values. Not covered: that parse_element calls these checks for every start tag with the right arguments (the recursion over the locked element graph is not under contract; the API-level checks stand in, bounded).',
         checker_cmd='cargo kani --harness funnel_optional_error --harness funnel_error --harness funnel_check_version; frame scan of parser.rs; vxnative api strictlenient <corpus> 1',
-        trusted_base=['Kani 0.68 + CBMC 6.11', 'the non-interference argument from the funnel contracts + frame conditions to the whole-parser statement (not machine-checked)', 'syntactic frame scan (regex over code text with comments/literals masked)'])
+        trusted_base=['Kani 0.68 + CBMC 6.11', 'the non-interference argument from the funnel contracts + frame conditions to the whole-parser statement (not machine-checked)', 'syntactic frame scan (regex over code text with comments/literals masked)',
+                      'unit elemcheck: the preconditions of the three checks at their call site in parse_element (element type inside the tables; the previous index list came from an earlier lookup) are not machine-checked -- parse_element itself (recursion over the locked element graph) is not under contract'])
